@@ -301,9 +301,11 @@ impl WriteAheadLog {
         self.header.metadata_mut().wal_header.global_last_lsn = Some(lsn);
         self.header.metadata_mut().wal_header.total_entries += 1;
 
-        // Try to write to block zero first
+        // Try to write to block zero first, as long as no later block exists
         if self.current_block.is_none() {
-            if self.header.available_space() >= record_size {
+            if self.header.metadata().wal_header.total_blocks <= 1
+                && self.header.available_space() >= record_size
+            {
                 self.header.try_push(lsn, record)?;
                 return Ok(());
             }
